@@ -315,6 +315,26 @@ class ChordalQR(Harness):
         # real inputs as well
         assert not self._check((crandn(rng, m, 1).real + 0j,
                                 crandn(rng, m, 1).real + 0j, 1.5 + 0j))
+        # nearly equal subspaces (principal angles 1e-4 .. 5e-3 rad): the
+        # three routes must still agree and must not snap to zero
+        from pysym.runner import ConcreteViolation
+        me = repo_module(METR)
+        for n in (1, 2):
+            if n >= m:
+                continue
+            for eps in (3e-4, 1e-3, 4e-3):
+                A = crandn(rng, m, n)
+                B = A + eps * crandn(rng, m, n)
+                d1 = me.calc_chordal_distance(A, B)
+                d2 = me.calc_chordal_distance_2(A, B)
+                d3 = me.calc_chordal_distance_from_principal_angles(
+                    me.calc_principal_angles(A, B))
+                if max(abs(d1 - d2), abs(d3 - d2)) > 1e-6 + 1e-3 * d2:
+                    raise ConcreteViolation(
+                        'C20/chordal/close-subspaces:routes-disagree',
+                        dict(m=m, n=n, eps=eps, d_qr=float(d1),
+                             d_proj=float(d2), d_angles=float(d3)))
+                k += 1
         return k + 1
 
 
@@ -676,6 +696,29 @@ class Gmd(Harness):
                         'C20/gmd/size>=3:' + '+'.join(bad),
                         dict(size=n, matrix=str(A)[:400], failed=bad))
                 k += 1
+        # exact ties (excluded from the symbolic run by s0 > s1): singular
+        # values equal to each other / to their geometric mean
+        dft4 = np.fft.fft(np.eye(4)) / 2.0
+        ties = [np.eye(2), np.eye(3), 2 * np.eye(2), np.eye(3)[[2, 0, 1]],
+                dft4, np.diag([4.0, 2.0, 1.0]), np.diag([4.0, 2.0, 2.0, 1.0]),
+                np.diag([3.0, 2.0, 1.0]), -np.eye(2), 1j * np.eye(2)]
+        for A in ties:
+            A = np.asarray(A)
+            try:
+                bad = self._check(A)
+            except Exception as e:   # noqa
+                bad = ['exception:' + type(e).__name__]
+            if not bad:
+                U, S, Vh = np.linalg.svd(A)
+                Q, R, P = repo_module(MISC).gmd(U, S, Vh)
+                if not (np.all(np.isfinite(Q)) and np.all(np.isfinite(R))
+                        and np.all(np.isfinite(P))):
+                    bad = ['non-finite-factors']
+            if bad:
+                raise ConcreteViolation(
+                    'C20/gmd/tied-singular-values:' + '+'.join(bad),
+                    dict(matrix=str(A)[:300], failed=bad))
+            k += 1
         return k
 
 
